@@ -15,10 +15,12 @@ func (e StdEng) StackDense(t DenseTensor, axis int, others ...DenseTensor) (retV
 
 	// the stacking kernels interleave raw blocks: column-major operands are read through row-major copies
 	t = asRowMajor(t)
+	copied := false
 	for i, ot := range others {
 		if rm := asRowMajor(ot); rm != ot {
-			if i == 0 {
+			if !copied {
 				others = append([]DenseTensor(nil), others...) // do not write into the caller's slice
+				copied = true
 			}
 			others[i] = rm
 		}
